@@ -68,7 +68,7 @@ def run(ctx):
             S.count("fact:%s/%s/%s" % (c["fform"], c["fdtype"], "1col" if c["K"] is None else "K%d" % c["K"]))
         S.count("xdtype:" + c["xdtype"])
         n0 = len(S.lits)
-        rc, rx = S.call(c, fmt, tag=tag)
+        rc, rx = S.call(c, fmt, tag=tag, to_coq=ca.literal_is_small(c))
         if len(S.lits) > n0 and c["N"] > 0 and (c["exts"] or c["fact"] is not None or c["wkind"] != "none"):
             ctx.nontrivial.add(S.lits[-1])
         # the two cubes against each other, without oracle or model
@@ -99,13 +99,18 @@ def run(ctx):
         one(ca.spread_case(rng), "weight-spread")
     for i in range(6000 if thorough else 400):
         one(ca.decimal_case(rng, absent=(i % 2 == 0)), "decimal-weights")
+    for i in range(1500 if thorough else 120):
+        one(ca.scale_case(rng, decimal=(i % 3 == 2)), "scale")
+    for i in range(30 if thorough else 3):
+        one(ca.many_columns_case(rng, kind="sum" if i == 0 else None), "many-columns")
     n_float = 15000 if thorough else 600
     for i in range(n_float):
         one(ca.float_case(rng), "float")
 
+    ctx.coverage["oracle_only_calls"] = S.oracle_only
     ctx.coverage.update({"real_calls": S.calls, "calls_compared_in_coq": len(S.lits), "float_stream_calls": n_float,
                          "distribution": dict(sorted(S.dist.items()))})
-    ctx.evaluations = len(S.lits) + n_float + S.dist.get("stream:decimal-weights", 0)
+    ctx.evaluations = len(S.lits) + S.oracle_only
     res = core.run_cases("c03", ca.PRELUDE, S.lits, ca.CASE_TYPE, ca.CHECK_EXPR, ca.EXPLAIN_EXPR,
                          shard_size=2000 if thorough else 120)
     ca.conclude(ctx, "C03", pr, S, res, THEOREMS, HOW)
